@@ -20,23 +20,32 @@ SHAPES = {
 }
 
 
+LONG = 70          # "long" text values: up to 70 characters over a two-letter alphabet (length-dependent behaviour, e.g. clipping)
+
+
 def make_image(sym, im, i, opts):
     img = Image(im)
-    img.path = sym.str("path%d" % i, 3, minlen=1)
+    long_attr = opts.get("long") if i == 0 else None
+
+    def text(name, maxlen, **kw):
+        if long_attr is not None and name.startswith(long_attr):
+            return sym.str(name, LONG, minlen=kw.get("minlen", 0), alphabet=["a", "b"])
+        return sym.str(name, maxlen, **kw)
+    img.path = text("path%d" % i, 3, minlen=1)
     img.mtime = sym.int("mtime%d" % i)
     img.size = sym.int("size%d" % i, 1, None)          # size 0 is refused by the writer (documentation silent): outside the claim
-    img.volume_id = sym.str("volid%d" % i, 3, minlen=1) if opts["volume_id"][i] else None
+    img.volume_id = text("volid%d" % i, 3, minlen=1) if opts["volume_id"][i] else None
     img.type = sym.one_of("type%d" % i, SUPPORTED_IMAGE_TYPES)
     img.format = sym.one_of("format%d" % i, SUPPORTED_IMAGE_FORMATS)
-    img.arch = sym.str("arch%d" % i, 3, minlen=1)
+    img.arch = text("arch%d" % i, 3, minlen=1)
     img.disc_number = sym.int("discnum%d" % i)
     img.disc_count = sym.int("disccount%d" % i)
-    img.checksums = {"sha256": sym.str("sha256_%d" % i, 3)}
+    img.checksums = {"sha256": text("sha256_%d" % i, 3)}
     if opts["two_checksums"][i]:
         img.checksums["md5"] = sym.str("md5_%d" % i, 3)
     img.implant_md5 = sym.str("implant%d" % i, 32, minlen=32, alphabet=["a-z", "0-9", "A-F"]) if opts["implant"][i] else None
     img.bootable = sym.bool("bootable%d" % i)
-    img.subvariant = sym.str("subvariant%d" % i, 3)
+    img.subvariant = text("subvariant%d" % i, 3)
     if opts["unified"][i]:
         img.unified = True
         img.additional_variants = list(opts["additional"][i])
@@ -201,6 +210,11 @@ def jobs(tier, seed):
     for si, shape in enumerate(SHAPES):
         for k in ks:
             out.append({"harness": "roundtrip", "params": {"shape": shape, "opts": _opts(k + si + seed)}, "validate_every": 30})
+    for la in ("volid", "path", "subvariant", "arch", "sha256"):
+        o = _opts(5)
+        o["volume_id"] = [True, False, True]
+        o["long"] = la
+        out.append({"harness": "roundtrip", "params": {"shape": "one-cell-2", "opts": o}})
     for ub, ua, ab, aa in ((True, False, ["Client", "Server"], []), (False, True, [], ["Workstation"]), (True, True, ["Client"], ["Workstation", "Client"]),
                            (False, False, [], [])):
         out.append({"harness": "edited_roundtrip", "params": {"unified_before": ub, "unified_after": ua, "additional_before": ab, "additional_after": aa}})
@@ -217,6 +231,7 @@ META = {
         "variant and arch keys concrete, every image attribute symbolic (sizes and times unbounded integers)",
         "image size >= 1: size 0 is refused by the writer although no document says so (treated as outside the claim)",
         "checksum type names concrete (sha256, md5), their values symbolic",
+        "text attributes up to 3 characters over all of Unicode; in five further jobs one of volume id / path / subvariant / arch / checksum value is up to 70 characters over a two-letter alphabet",
         "edited_roundtrip: one image is written, read back, every one of its 15 attributes replaced (unified switched on/off/kept, additional variants replaced), written and read again",
     ],
 }
